@@ -682,6 +682,7 @@ static int state_sync_process(struct snapraid_state* state, struct snapraid_pari
 	block_off_t autosavelimit;
 	block_off_t autosavemissing;
 	int ret;
+	int io_is_stopped = 0;
 	unsigned error;
 	unsigned silent_error;
 	unsigned io_error;
@@ -1341,6 +1342,28 @@ static int state_sync_process(struct snapraid_state* state, struct snapraid_pari
 	}
 
 end:
+	/* stop all the worker threads */
+	/* this also waits for the completion of all the parity writes still queued */
+	io_stop(&io);
+	io_is_stopped = 1;
+
+	/* collect the errors of the parity writes completed after the latest io_write_next() */
+	for (j = 0; j < IO_WRITER_ERROR_MAX; ++j) {
+		if (io.writer_error[j]) {
+			switch (j + IO_WRITER_ERROR_BASE) {
+			case TASK_STATE_IOERROR_CONTINUE :
+			case TASK_STATE_IOERROR :
+				++io_error;
+				break;
+			case TASK_STATE_ERROR_CONTINUE :
+			case TASK_STATE_ERROR :
+				++error;
+				break;
+			}
+			io.writer_error[j] = 0;
+		}
+	}
+
 	state_progress_end(state, countpos, countmax, countsize);
 
 	state_usage_print(state);
@@ -1393,8 +1416,9 @@ end:
 	log_flush();
 
 bail:
-	/* stop all the worker threads */
-	io_stop(&io);
+	/* stop all the worker threads, if not already done */
+	if (!io_is_stopped)
+		io_stop(&io);
 
 	for (j = 0; j < diskmax; ++j) {
 		struct snapraid_file* file = handle[j].file;
